@@ -41,6 +41,40 @@ fn cube_shape(m: &D) -> Result<u64, String> {
     }
 }
 
+/// infer(d, v) for every variable of the universe and one the environment has never seen:
+/// (true, true) exactly when the diagram forces v to be true (the false leaf forces everything).
+fn check_infer(st: &mut Stats, env: &BDDEnv<usize>, uni: &[usize], outside: usize, subjects: &[(&str, &D, &Tt)], ft: &Tt) {
+    let n = uni.len() as u32;
+    let idx = idx_fn(uni);
+    for (who, d, t) in subjects.iter().cloned() {
+        for v in uni.iter().chain(std::iter::once(&outside)) {
+            st.evals += 1;
+            st.bump("infer_calls");
+            let forced = match idx(v) {
+                Some(i) => t.leq(&Tt::var(n, i)),
+                None => t.is_false(), // a variable the function does not mention is forced only vacuously
+            };
+            let case = json!({"kind": "infer", "f": ft.hex(), "universe": labels_json(uni), "outside": outside.to_string(), "of": who, "v": v.to_string()});
+            match guarded(|| env.infer(Rc::clone(d), *v)) {
+                Ok(ans) => {
+                    if (ans == (true, true)) != forced {
+                        st.violate(
+                            "c07.infer",
+                            "C07:infer:wrong-answer".into(),
+                            format!("infer({} = {}, {}) = {:?} but the diagram {} variable {} to be true", who, short(d), v, ans, if forced { "forces" } else { "does not force" }, v),
+                            case,
+                        );
+                    }
+                    if forced {
+                        st.bump("infer_forced_true");
+                    }
+                }
+                Err(c) => st.violate("c07.panic", format!("C07:infer:{}", c.signature()), format!("{:?}", c), case),
+            }
+        }
+    }
+}
+
 fn check_model(st: &mut Stats, env: &BDDEnv<usize>, uni: &[usize], f: &(D, Tt), outside: usize, fam: &str) {
     let n = uni.len() as u32;
     let idx = idx_fn(uni);
@@ -68,6 +102,9 @@ fn check_model(st: &mut Stats, env: &BDDEnv<usize>, uni: &[usize], f: &(D, Tt), 
     }
     if unsat {
         st.bump("unsat_functions");
+        // the false leaf forces every variable, also ones this environment has never seen
+        let ff = Tt::constant(n, false);
+        check_infer(st, env, uni, outside, &[("model", &m, &ff), ("f", &f.0, &f.1)], &f.1);
         return;
     }
     match cube_shape(&m) {
@@ -113,34 +150,7 @@ fn check_model(st: &mut Stats, env: &BDDEnv<usize>, uni: &[usize], f: &(D, Tt), 
             st.bump("models_needing_an_else_arm");
         }
     }
-    // infer(m, v) and infer(f, v) for every variable of the universe and one outside it
-    for (who, d, t) in [("model", &m, &mt), ("f", &f.0, &f.1)] {
-        for v in uni.iter().chain(std::iter::once(&outside)) {
-            st.evals += 1;
-            st.bump("infer_calls");
-            let forced = match idx(v) {
-                Some(i) => t.leq(&Tt::var(n, i)),
-                None => t.is_false(), // a variable the function does not mention is forced only vacuously
-            };
-            let case = json!({"kind": "infer", "f": f.1.hex(), "universe": labels_json(uni), "outside": outside.to_string(), "of": who, "v": v.to_string()});
-            match guarded(|| env.infer(Rc::clone(d), *v)) {
-                Ok(ans) => {
-                    if (ans == (true, true)) != forced {
-                        st.violate(
-                            "c07.infer",
-                            "C07:infer:wrong-answer".into(),
-                            format!("infer({} = {}, {}) = {:?} but the diagram {} variable {} to be true", who, short(d), v, ans, if forced { "forces" } else { "does not force" }, v),
-                            case,
-                        );
-                    }
-                    if forced {
-                        st.bump("infer_forced_true");
-                    }
-                }
-                Err(c) => st.violate("c07.panic", format!("C07:infer:{}", c.signature()), format!("{:?}", c), case),
-            }
-        }
-    }
+    check_infer(st, env, uni, outside, &[("model", &m, &mt), ("f", &f.0, &f.1)], &f.1);
     if st.want_sample() && needs_else && st.evals % 5003 == 11 {
         st.sample(json!({"f": short(&f.0), "model": short(&m)}));
     }
